@@ -50,7 +50,15 @@ func withRequestCtx(parent context.Context, f func(context.Context) error) error
 	return f(rc)
 }
 
-func cidOf(i int) cid.Cid { return clus.Cid(fmt.Sprintf("c%d", i)) }
+// cidOf: c1 is the CIDv0 of c0's multihash (c0 is v1/raw): two different CIDs
+// of one content are different entries, and every history that uses both
+// CIDs checks it at no extra cost.
+func cidOf(i int) cid.Cid {
+	if i == 1 {
+		return clus.CidV0("c0")
+	}
+	return clus.Cid(fmt.Sprintf("c%d", i))
+}
 
 type finding struct{ key, detail string }
 
